@@ -167,3 +167,24 @@ contract(MAC + '.generate_bytecode_parts', props=['C10'],
          modifies=[], allocates=True, no_frame_check=True,
          loops={'0': dict(idx='i', allocates=True,
                           inv=['forall(lambda k: implies(0 <= k and k < i, not ' + MACC.format(i='k') + '))'])})
+
+# ---- placeholders: a step that still contains @ARG / @REG / @OP after substitution is rejected --------------------------
+CLEAN = ('(not ("@ARG" in {s}) and not ("@REG" in {s}) and not ("@OP" in {s}))')
+contract(MAC + '.generate_variant_bytecode_parts', name='placeholders', props=['C10'], blocks_only=True,
+         params={'operands': 'str?', 'parser_class': 'opaque'}, returns='AssembledInstruction?',
+         locals={'instruction_lines': 'list[str]', 'matched_operands': 'MatchedOperandSet?', 'instruction_str': 'str'},
+         blocks={'substitute': dict(
+             where='loop[0]', locals={},
+             requires=['len(instruction_lines) == 0'],
+             may_raise={'SystemExit': 'True', 'AttributeError': 'True', 'KeyError': 'True'},
+             ensures=[
+                 # one expanded line per configured step, none with a placeholder left in it
+                 'len(instruction_lines) == cfg_len(variant._variant_config["instructions"])',
+                 'forall(lambda j: implies(0 <= j and j < len(instruction_lines), '
+                 + CLEAN.format(s='elems(instruction_lines)[j]') + '))'],
+             modifies=['instruction_lines[*]'])},
+         loops={'0': dict(idx='i', modifies=['instruction_lines[*]'],
+                          inv=['len(instruction_lines) == i', 'i <= cfg_len(variant._variant_config["instructions"])',
+                               'forall(lambda j: implies(0 <= j and j < i, ' + CLEAN.format(s='elems(instruction_lines)[j]') + '))']),
+                '0.0': dict(idx='m', modifies=[], types={'instruction_str': 'str'},
+                            inv=['m >= 0', 'len(instruction_lines) == i'])})
